@@ -211,6 +211,19 @@ type warmGen struct {
 	uniq map[string]map[string]string              // "root.field" -> value -> believed holder
 	cross   bool                       // also emit operations that carry a value from one indexed field into another one
 	inChild map[string]map[string]bool // child store -> ids believed to live in it
+	typed   bool                       // the wiring has typed fields (store_c03t.go): per-type value universes, more (and also full) updates of unique fields
+}
+
+// valsFor: the value universe of a field given as "<store>.<field>"
+func (g *warmGen) valsFor(key string) []string {
+	if g.typed {
+		if k := strings.Index(key, "."); k > 0 {
+			if f, ok := c03tFieldOf(g.w, key[:k], key[k+1:]); ok && f.Typ != "" {
+				return c03tUniverses[f.Typ]
+			}
+		}
+	}
+	return g.p.vals
 }
 
 func (g *warmGen) isSetIdx(store, set string) bool {
@@ -428,7 +441,7 @@ func (g *warmGen) aliveIds(root string) []string {
 
 func (g *warmGen) freeValue(key string) (string, bool) {
 	var free []string
-	for _, v := range g.p.vals {
+	for _, v := range g.valsFor(key) {
 		if v != "" && g.uniq[key][v] == "" {
 			free = append(free, v)
 		}
@@ -671,11 +684,50 @@ func (g *warmGen) uniqueUpdate() (hOp, bool) {
 	}
 	op.HasChk = true
 	op.Checker = []string{f}
+	if g.typed && g.r.chance(30) {
+		// a full update instead: every other unique field keeps what the entity is believed to hold
+		op.HasChk, op.Checker = false, nil
+		for _, k2 := range keys {
+			f2 := k2[strings.Index(k2, ".")+1:]
+			if f2 == f {
+				continue
+			}
+			delete(op.F, f2)
+			for v, id := range g.uniq[k2] {
+				if id == op.Id {
+					op.F[f2] = sp(v)
+				}
+			}
+		}
+		root := g.rootOf(store)
+		if g.sets[root] != nil && g.sets[root][op.Id] != nil {
+			for sn := range op.S {
+				op.S[sn] = append([]string{}, g.sets[root][op.Id][sn]...)
+			}
+		}
+	}
 	g.noteUnique(&op)
 	return op, true
 }
 
 func (g *warmGen) warmOp() hOp {
+	if !g.typed {
+		return g.warmOp0()
+	}
+	// more updates of unique values than in the string wirings, and every operation well-typed
+	var op hOp
+	ok := false
+	if g.r.chance(30) {
+		op, ok = g.uniqueUpdate()
+	}
+	if !ok {
+		op = g.warmOp0()
+	}
+	c03tNormOp(g.w, &op)
+	return op
+}
+
+func (g *warmGen) warmOp0() hOp {
 	if g.cross && g.r.chance(35) {
 		if op, ok := g.c03CrossFieldOp(); ok {
 			return op
@@ -769,6 +821,9 @@ func (g *warmGen) genHistoryWarm() []hTx {
 				}
 			}
 			if op, ok := g.validCreate(store); ok {
+				if g.typed {
+					c03tNormOp(g.w, &op)
+				}
 				txs = append(txs, hTx{Ops: []hOp{op}})
 			}
 		}
@@ -854,7 +909,7 @@ func runStoreC03s(o *opts) error {
 			c = cb.String()
 			stats["histories_live"]++
 		} else {
-			txs = (&warmGen{histGen: g, cross: cross}).genHistoryWarm()
+			txs = (&warmGen{histGen: g, cross: cross, typed: c03tTypedKeys(w) != nil}).genHistoryWarm()
 			stats["histories_warm"]++
 			var err error
 			c, obs, err = runHistory(w, txs, tmp)
@@ -911,6 +966,16 @@ func runStoreC03s(o *opts) error {
 		}
 		stats["deep_histories"]++
 		stats[fmt.Sprintf("deep_depth_%d_slack_%v", d.depth, d.slack > 0)]++
+	}
+	// unique indexes over int64 / int32 / bool / float64 / datetime fields (store_c03t.go; own random stream again)
+	rt := newRng(o.seed*104729 + 11)
+	nTyped := n / 4
+	for i := 0; i < nTyped; i++ {
+		d := c03tWirings[(i/2)%len(c03tWirings)]
+		if err := one(rt, wiringByName(d.name), i, false); err != nil {
+			return err
+		}
+		stats["typed_histories"]++
 	}
 	writeJSON(o.out, "stats.json", stats)
 	fmt.Fprintf(os.Stderr, "store_c03s: %d histories\n", n)
